@@ -111,7 +111,18 @@ impl CoreDID {
   ///
   /// Returns `Err` if the input is not a valid [`DID`].
   pub fn parse(input: impl AsRef<str>) -> Result<Self, Error> {
-    BaseDIDUrl::parse(input).map(Self).map_err(Error::from)
+    let input: &str = input.as_ref();
+    // The underlying parser ignores surrounding whitespace and control characters but keeps them
+    // in the stored string, which shifts every component: only accept input it parses verbatim.
+    if input.trim_matches(|ch: char| ch.is_ascii_control() || ch.is_ascii_whitespace()) != input {
+      return Err(Error::InvalidScheme);
+    }
+    // The underlying parser skips one character too many after a percent-encoded triple, so a
+    // method id ending in one would leave its component offsets past the end of the string.
+    if input.len() >= 3 && input.as_bytes()[input.len() - 3] == b'%' {
+      return Err(Error::InvalidMethodId);
+    }
+    Self::try_from(BaseDIDUrl::parse(input)?)
   }
 
   /// Set the method name of the [`DID`].
@@ -192,6 +203,8 @@ impl TryFrom<BaseDIDUrl> for CoreDID {
   type Error = Error;
 
   fn try_from(base_did_url: BaseDIDUrl) -> Result<Self, Self::Error> {
+    // A DID carries no path, query or fragment - those belong to a `DIDUrl`.
+    Self::check_validity(&base_did_url)?;
     Ok(Self(base_did_url))
   }
 }
